@@ -104,20 +104,24 @@ SYNTHETIC["syn-names"] = {
     "subnets": [1, 1],
     "topology": [[1, 1, 0], [1, 1, 1], [0, 1, 1]],
     "sensitive_hosts": {"(2, 0)": 10},
-    "os": ["windows", "windows10", "win"], "services": ["http", "https", "ftp", "sftp"], "processes": ["svc", "svchost"],
-    "exploits": {"e_https": {"service": "https", "os": "windows10", "prob": 0.9, "cost": 1, "access": "user"}},
-    "privilege_escalation": {"pe_svchost": {"process": "svchost", "os": "windows10", "prob": 1.0, "cost": 1, "access": "root"}},
+    # ... and names are case-sensitive identifiers (capitalised names are names like any other)
+    "os": ["Windows", "windows10", "win"], "services": ["HTTP", "https", "ftp", "sftp"], "processes": ["Svc", "svchost"],
+    "exploits": {"e_https": {"service": "https", "os": "Windows", "prob": 0.9, "cost": 1, "access": "user"},
+                 "e_HTTP": {"service": "HTTP", "os": "win", "prob": 0.7, "cost": 2, "access": "root"}},
+    "privilege_escalation": {"pe_svchost": {"process": "svchost", "os": "Windows", "prob": 1.0, "cost": 1, "access": "root"},
+                             "pe_Svc": {"process": "Svc", "os": "windows10", "prob": 0.5, "cost": 2, "access": "root"}},
     "service_scan_cost": 1, "os_scan_cost": 1, "subnet_scan_cost": 1, "process_scan_cost": 1,
-    "host_configurations": {"(1, 0)": {"os": "windows10", "services": ["https", "sftp"], "processes": ["svchost"]},
-                            "(2, 0)": {"os": "win", "services": ["http"], "processes": ["svc"]}},
-    "firewall": {"(0, 1)": ["https"], "(1, 0)": [], "(1, 2)": ["http", "https"], "(2, 1)": ["sftp"]},
+    "host_configurations": {"(1, 0)": {"os": "Windows", "services": ["https", "sftp"], "processes": ["svchost"]},
+                            "(2, 0)": {"os": "win", "services": ["HTTP"], "processes": ["Svc"]}},
+    "firewall": {"(0, 1)": ["https"], "(1, 0)": [], "(1, 2)": ["HTTP", "https"], "(2, 1)": ["sftp"]},
 }
 
 
-_web = {"os": "linux", "services": ["ssh"], "processes": ["tomcat"]}
+_web = {"os": "linux", "services": ["ssh"], "processes": ["tomcat"], "firewall": {"(1, 0)": ["ssh"]}}
+_dmz = {"os": "linux", "services": ["ssh"], "processes": ["tomcat"]}
 SYNTHETIC["syn-alias"] = {
-    # three hosts share ONE configuration mapping (what PyYAML yields for a YAML anchor `&web` and its aliases `*web`);
-    # two of them are sensitive with different values, the first one is not
+    # two hosts share ONE configuration mapping (with a host firewall) (what PyYAML yields for a YAML anchor `&web` and its aliases `*web`);
+    # both are sensitive, with different values
     "subnets": [1, 1, 1],
     "topology": [[1, 1, 0, 0], [1, 1, 1, 1], [0, 1, 1, 0], [0, 1, 0, 1]],
     "sensitive_hosts": {"(2, 0)": 100, "(3, 0)": 50},
@@ -125,7 +129,7 @@ SYNTHETIC["syn-alias"] = {
     "exploits": {"e_ssh": {"service": "ssh", "os": "linux", "prob": 0.8, "cost": 1, "access": "user"}},
     "privilege_escalation": {"pe_tomcat": {"process": "tomcat", "os": "linux", "prob": 1.0, "cost": 1, "access": "root"}},
     "service_scan_cost": 1, "os_scan_cost": 1, "subnet_scan_cost": 1, "process_scan_cost": 1,
-    "host_configurations": {"(1, 0)": _web, "(2, 0)": _web, "(3, 0)": _web},
+    "host_configurations": {"(1, 0)": _dmz, "(2, 0)": _web, "(3, 0)": _web},
     "firewall": {"(0, 1)": ["ssh"], "(1, 0)": [], "(1, 2)": ["ssh"], "(2, 1)": [], "(1, 3)": ["ssh"], "(3, 1)": ["ssh"]},
     "step_limit": 100,
 }
